@@ -66,35 +66,45 @@ SPEC = dict(
     module="LMStripe.C04",
     harness_bin="stripe",
     ml_modules=["stripe_model"],
-    n={"quick": 600, "thorough": 9000},
+    n={"quick": 600, "thorough": 7200},
     search_n={"quick": 2500, "thorough": 12000},
     nontrivial=nontrivial,
     histogram=histogram,
     signature=signature,
     translate=_translate,
-    rule="operation histories (1..12 ops: stripe_into / stripe (fresh; to_striped for the dispatcher) / "
-         "configure(motif of width M) / configure_wrap(k)) on ONE StripedSequence buffer, DNA and protein, "
-         "C in 1,2,4,16,32 (generic pipeline) and C=32 through Pipeline::avx2() and Pipeline::dispatch() with the "
-         "arm forced to Generic/Sse2/Avx2; lengths 0..40, around multiples of 32, 992..1100 (around 32*32 where the "
-         "AVX2 block loop starts), around multiples of 1024, up to ~3300 (quick) / ~5200 (thorough); wrap widths "
-         "small, around the row count (look-ahead rows built from look-ahead rows) and large; the thorough tier "
-         "starts with a sweep of every length 0..1100 through the AVX2 kernel and the dispatcher's AVX2 arm into a "
-         "stale buffer. After every op: len, wrap, rows, every matrix cell, Index at sampled positions (ends of the "
-         "sequences / of the matrices, incl. out-of-range = panic), count_symbols and count_symbol of every symbol are "
-         "(a) checked against the property by the extracted, proved-sound checker check_striped with respect to the "
-         "sequence striped last (+ check_wrap_rows, Index/counts against the linear sequence, generic-vs-AVX2 "
-         "matrices compared directly by the harness) and (b) compared with the extracted Coq model. Non-trivial: "
-         "distinct (alphabet, C, history) containing a stripe of a non-empty sequence whose length is not a multiple "
-         "of C followed by at least one more operation.",
+    rule="corpus/C04/boundary.txt (111 committed histories: the AVX2 kernel and the dispatcher's AVX2 arm at "
+         "L = 0,1,31..33,63..65,991..993,1000 (the repaired over-read),1023..1025,1054..1057,1087..1089,2047..2049,"
+         "2078..2081,3103..3105 into a stale configured buffer; the 64 / 1031 nt lengths of tests/stripe.rs through "
+         "all five pipelines; wrap wider than the row count, growing/shrinking widths, empty motif, empty sequence for "
+         "C = 1,2,4,16,32, DNA and protein), then generated operation histories (1..12 ops: stripe_into / stripe "
+         "(fresh; EncodedSequence::to_striped for the dispatcher) / configure(motif of width M) / configure_wrap(k)) "
+         "on ONE StripedSequence buffer, DNA and protein, C in 1,2,4,16,32 (generic pipeline) and C=32 through "
+         "Pipeline::avx2() and Pipeline::dispatch() with the arm forced to Generic/Sse2/Avx2; lengths 0..40, around "
+         "multiples of 32, 992..1100 (around 32*32 where the AVX2 block loop starts), around multiples of 1024, up to "
+         "~3300 (quick) / ~5200 (thorough); wrap widths small, around the row count (look-ahead rows built from "
+         "look-ahead rows) and large; the thorough tier starts with a sweep of every length 0..1100 through the AVX2 "
+         "kernel and the dispatcher's AVX2 arm into a stale buffer. After EVERY op the harness observes len, wrap, "
+         "rows, every matrix cell, Index at every position 0..len-1 and at sampled positions up to / beyond the end "
+         "of the matrix (panic = observation), count_symbols, count_symbol of every symbol, and whether generic and "
+         "AVX2 stripe_into of that sequence into clones of the buffer agree cell by cell. PROPFAIL = the extracted "
+         "checker check_C04 (Coq, C04_check_sound: accepts only observations that are the striped form of the "
+         "sequence striped last, with shifted look-ahead rows, Index = linear sequence, counts = linear counts, "
+         "backends agreeing) rejects the implementation's observation, or an op panicked (C04_striped_history: none "
+         "may). DIFF = observation differs from the extracted Coq model run on the same history (matrix, len, wrap, "
+         "sampled Index incl. out-of-range panics; the model's own counting loops for L <= 1200 and after the last "
+         "op). Non-trivial: distinct (alphabet, C, history) containing a stripe of a non-empty sequence whose length "
+         "is not a multiple of C followed by at least one more operation.",
     trusted_base=[
-        "Coq 8.16.1 kernel (coqc); vm_compute in the reflection lemmas about the translated network "
-        "(NetProofs) and in Example lemmas; no native_compute",
+        "Coq 8.16.1 kernel (coqc; coqchk -o on LMStripe.C04 in the thorough tier); vm_compute in the reflection "
+        "lemma about the translated network (NetProofs.net_coords and three forallb facts about the load/store "
+        "lists) and in Example lemmas; no native_compute; all 21 theorems closed under the global context",
         "extraction: ExtrOcamlBasic only (nat, list kept as extracted inductives); OCaml 4.13.1",
         "translator translate/stripe_net.py (regex over avx2.rs::stripe_avx2: unpack! macro arms, 32 loads, "
         "unpack! invocations, 32 stores; dispatch.rs Stripe arm table) -> coq/stripe/GenStripeNet.v",
         "lane semantics of _mm256_unpack{lo,hi}_epi{8,16,32,64} and _mm256_permute2x128_si256 as index lists "
         "(coq/stripe/NetModel.v), exercised by the correspondence check on every run",
-        "hand-written OCaml driver ocaml/stripe/driver.ml (parsing, printing, comparison)",
+        "hand-written OCaml driver ocaml/stripe/driver.ml (parsing, printing, comparison with the model; the "
+        "PROPFAIL decision itself is the extracted check_C04)",
         "Rust harness harness/src/bin/stripe.rs (op interpreter over the public API, catch_unwind, hook "
         "lightmotif::pli::verif::force_backend)",
         "modelled by hand, tied by the correspondence check only: Stripe::stripe/stripe_into (pli/mod.rs), "
@@ -104,8 +114,14 @@ SPEC = dict(
     ],
     assumptions=[
         "symbols are their indices (< K), A::Symbol::default() is the last symbol (N = 4, X = 20)",
+        "a reused buffer is any matrix whose rows have C cells (wf_matrix: the type invariant of DenseMatrix<_, C>); "
+        "histories start from StripedSequence::default() or from any state that is the striped form of some sequence",
         "Vec capacity (with_capacity / reserve) and the non-temporal nature of _mm256_stream_si256 / _mm_sfence "
-        "have no logical effect; one matrix row of a 32-column symbol matrix is exactly one 32-byte vector",
+        "have no logical effect; one matrix row of a 32-column symbol matrix is exactly one 32-byte vector; a "
+        "vector load outside the sequence slice / store outside the matrix is an explicit failure of the model "
+        "(Panic 90/91), proved unreachable (C04_stripe_avx2_spec)",
         "usize arithmetic does not overflow (lengths far below 2^64)",
+        "not modelled: NEON / SSE2 have no striping kernel (the dispatcher's Sse2 arm runs the generic one, table "
+        "translated from dispatch.rs); StripedSequence::sample, Clone, Debug",
     ],
 )
